@@ -459,9 +459,18 @@ package graph
 //@     invariant forall t in 0..n: 0 <= degreeSequence[t] && degreeSequence[t] <= 16777216
 //@     decreases len(tmpNeighbourhoods) - rangeindex
 
+// abstract adjacency of the sparse representation: j is listed among the neighbours of i
+//@ pred inInts2(x int, s []int) = exists k in 0..len(s): s[k] == x
+//@ pred adjS(g *SparseGraph, i int, j int) = inInts2(j, g.Neighbourhoods[i])
+// what (SparseGraph).IsEdge computes: membership in the list of the endpoint with the larger degree
+//@ pred isEdgeS(g *SparseGraph, i int, j int) = (g.DegreeSequence[i] > g.DegreeSequence[j] ? inInts2(j, g.Neighbourhoods[i]) : inInts2(i, g.Neighbourhoods[j]))
+// every listed neighbour lists the vertex back, and no vertex lists itself
+//@ pred symS(g *SparseGraph) = forall a in 0..g.NumberOfVertices: forall k in 0..len(g.Neighbourhoods[a]): g.Neighbourhoods[a][k] != a && inInts2(a, g.Neighbourhoods[g.Neighbourhoods[a][k]])
+
 //@ func (SparseGraph).IsEdge
 //@   requires 0 <= i && i < g.NumberOfVertices && 0 <= j && j < g.NumberOfVertices && len(g.Neighbourhoods) == g.NumberOfVertices && len(g.DegreeSequence) == g.NumberOfVertices
 //@   requires forall v in 0..g.NumberOfVertices: sortedInts(g.Neighbourhoods[v])
+//@   ensures result <==> (g.DegreeSequence[i] > g.DegreeSequence[j] ? inInts2(j, g.Neighbourhoods[i]) : inInts2(i, g.Neighbourhoods[j]))
 
 // Proved relative to the assumed contract of (*SortedInts).Add; the clause that neighbour lists
 // do not share their backing array with the degree sequence is part of wfSparse (without it
@@ -475,6 +484,10 @@ package graph
 //@   ensures forall v in 0..g.NumberOfVertices: sortedInts(g.Neighbourhoods[v])
 //@   ensures forall v in 0..g.NumberOfVertices: forall k in 0..len(g.Neighbourhoods[v]): 0 <= g.Neighbourhoods[v][k] && g.Neighbourhoods[v][k] < g.NumberOfVertices
 //@   ensures forall v in 0..g.NumberOfVertices: ref(g.Neighbourhoods[v]) != ref(g.DegreeSequence) || len(g.Neighbourhoods[v]) == 0
+//@   ensures [others] forall a in 0..g.NumberOfVertices: (a != i && a != j) ==> (len(g.Neighbourhoods[a]) == len(old(g.Neighbourhoods)[a]) && (forall k in 0..len(g.Neighbourhoods[a]): g.Neighbourhoods[a][k] == old(g.Neighbourhoods)[a][k]))
+//@   ensures [listI] (i != j && !old(isEdgeS(g, i, j))) ==> (inInts2(j, g.Neighbourhoods[i]) && (forall k in 0..len(g.Neighbourhoods[i]): g.Neighbourhoods[i][k] == j || inInts2(g.Neighbourhoods[i][k], old(g.Neighbourhoods)[i])) && (forall k in 0..len(old(g.Neighbourhoods)[i]): inInts2(old(g.Neighbourhoods)[i][k], g.Neighbourhoods[i])))
+//@   ensures [listJ] (i != j && !old(isEdgeS(g, i, j))) ==> (inInts2(i, g.Neighbourhoods[j]) && (forall k in 0..len(g.Neighbourhoods[j]): g.Neighbourhoods[j][k] == i || inInts2(g.Neighbourhoods[j][k], old(g.Neighbourhoods)[j])) && (forall k in 0..len(old(g.Neighbourhoods)[j]): inInts2(old(g.Neighbourhoods)[j][k], g.Neighbourhoods[j])))
+//@   ensures [noop] (i == j || old(isEdgeS(g, i, j))) ==> unmodified()
 //@   opt wrapcounters=NumberOfEdges,DegreeSequence
 
 //@ pred s6prefix(s string) = len(s) >= 11 && s[0] == 62 && s[1] == 62 && s[2] == 115 && s[3] == 112 && s[4] == 97 && s[5] == 114 && s[6] == 115 && s[7] == 101 && s[8] == 54 && s[9] == 60 && s[10] == 60
